@@ -18,7 +18,9 @@ def run(rep, tier, seed):
     rep.assumptions = [
         "models = hand-written Coq mirrors of dce.hpp, cfg::simplify (merge_blocks_rec, remove, remove_unreachable_blocks, remove_useless_blocks) and lower_safe_assertions.hpp, tied to the sources by differential testing only",
         "DCE theorem is conditional on the liveness model returning a validated solution (C18) and, for the converse direction, on the property's proviso (no removed statement can fail)",
-        "behaviour preservation of cfg::simplify is proved for its elementary steps; see the report of the property file for what is only corresponded",
+        "cfg::simplify: well-formedness and behaviour preservation (observations of the exit-reaching executions, both directions) are proved for the whole model (merge_blocks_rec with fuel, both removal passes) on well-formed CFGs; the model answers ABORT if its DFS fuel (2*blocks+2) runs out: never observed",
+        "lowering is exact on exit-reaching executions (a failing assertion ends the execution); the safety of the listed assertions only matters for failing executions, which the property does not cover",
+        "observations do not include goto events for simplify (blocks are merged); for DCE the full trace including the branches is preserved",
         "cfg::remove is modelled on CFGs with symmetric edge vectors (the only ones basic_block::operator>> / -= can build)",
     ]
     vlib.prove(rep)
